@@ -115,7 +115,7 @@ def concretise(job, unit, res, workdir, log):
             ix, fixed = ix_fixed
             if stop.is_set():
                 return None
-            hg = RP.HarnessGen(lw, fn, spec_fn, ghosts, K=K, fixed=fixed)
+            hg = RP.HarnessGen(lw, fn, spec_fn, ghosts, K=K, fixed=dict(job.get('fixed') or {}, **fixed))
             hg.native_skip_ensures = bool(job.get('native_skip_ensures'))
             htext = hg.build()
             body_c = gtext + pre_c + '\n' + text + '\n' + job.get('extra', '') + '\n' + stubs + '\n' + htext
